@@ -14,6 +14,7 @@ import (
 	"verif/internal/core"
 	"verif/internal/engines/concur"
 	_ "verif/internal/engines/disk"
+	_ "verif/internal/engines/stream"
 )
 
 func usage() {
@@ -41,7 +42,11 @@ func main() {
 	d := &core.Driver{Exe: exe, Home: home, Work: work, Par: runtime.NumCPU(), Seed: seed, Out: os.Stdout}
 	switch os.Args[1] {
 	case "worker":
-		if err := core.RunWorker(os.Stdin, os.Stdout); err != nil {
+		// the protocol owns the original stdout; anything the code under test prints to
+		// os.Stdout (SniffReader prints a warning when Seek fails) goes to stderr instead
+		proto := os.Stdout
+		os.Stdout = os.Stderr
+		if err := core.RunWorker(os.Stdin, proto); err != nil {
 			fmt.Fprintln(os.Stderr, "worker:", err)
 			os.Exit(3)
 		}
